@@ -17,7 +17,7 @@ type c03Case struct {
 	Base          string // Makefile | PLIST
 	Mode          uint32
 	Content       string
-	Events        []pkglint.VerifFixEvent
+	Events        []pkglint.VerifC03Event
 }
 
 var c03Words = []string{"a", "b", "ab", "aa", "x", "foo", "bin/", "=", "\t", " ", "VAR", "value", ".", "\\", "${X}", "@"}
@@ -72,10 +72,10 @@ func c03GenFile(r *Rng, plist bool) string {
 }
 
 // c03GenEvents draws 1-12 operations grouped into transactions, with save / sort events in between.
-func c03GenEvents(r *Rng, lines []pkglint.VerifLineInfo, plist bool, mode uint32) []pkglint.VerifFixEvent {
-	var evs []pkglint.VerifFixEvent
+func c03GenEvents(r *Rng, lines []pkglint.VerifC03Line, plist bool, mode uint32) []pkglint.VerifC03Event {
+	var evs []pkglint.VerifC03Event
 	if mode&0o111 != 0 && r.Chance(70) {
-		evs = append(evs, pkglint.VerifFixEvent{Kind: "chmod"})
+		evs = append(evs, pkglint.VerifC03Event{Kind: "chmod"})
 	}
 	nops := 1 + r.Intn(12)
 	sub := func(s string) string {
@@ -91,14 +91,14 @@ func c03GenEvents(r *Rng, lines []pkglint.VerifLineInfo, plist bool, mode uint32
 	}
 	for nops > 0 {
 		if len(lines) == 0 {
-			evs = append(evs, pkglint.VerifFixEvent{Kind: "txn", Line: r.Intn(2)})
+			evs = append(evs, pkglint.VerifC03Event{Kind: "txn", Line: r.Intn(2)})
 			break
 		}
 		li := r.Intn(len(lines))
 		if r.Chance(3) {
 			li = len(lines) // no such line
 		}
-		ev := pkglint.VerifFixEvent{Kind: "txn", Line: li, Diag: Pick(r, c03Diags)}
+		ev := pkglint.VerifC03Event{Kind: "txn", Line: li, Diag: Pick(r, c03Diags)}
 		k := 1 + r.Intn(3)
 		if r.Chance(5) {
 			k = 0
@@ -114,10 +114,10 @@ func c03GenEvents(r *Rng, lines []pkglint.VerifLineInfo, plist bool, mode uint32
 				ri = r.Intn(len(raws))
 				raw = raws[ri]
 			}
-			var op pkglint.VerifFixOp
+			var op pkglint.VerifC03Op
 			switch r.Intn(13) {
 			case 0, 1:
-				op = pkglint.VerifFixOp{Kind: "replaceafter", From: sub(strings.TrimSuffix(raw, "\n")), To: Pick(r, c03Words)}
+				op = pkglint.VerifC03Op{Kind: "replaceafter", From: sub(strings.TrimSuffix(raw, "\n")), To: Pick(r, c03Words)}
 			case 2, 3:
 				from := sub(strings.TrimSuffix(raw, "\n"))
 				pre := ""
@@ -126,9 +126,9 @@ func c03GenEvents(r *Rng, lines []pkglint.VerifLineInfo, plist bool, mode uint32
 				} else {
 					pre = Pick(r, c03Words)
 				}
-				op = pkglint.VerifFixOp{Kind: "replaceafter", Prefix: pre, From: from, To: Pick(r, c03Words)}
+				op = pkglint.VerifC03Op{Kind: "replaceafter", Prefix: pre, From: from, To: Pick(r, c03Words)}
 			case 4, 5, 6:
-				op = pkglint.VerifFixOp{Kind: "replaceat", RawIndex: ri, To: Pick(r, c03Words)}
+				op = pkglint.VerifC03Op{Kind: "replaceat", RawIndex: ri, To: Pick(r, c03Words)}
 				span := raw
 				if plist { // not the line terminator, see below
 					span = strings.TrimSuffix(raw, "\n")
@@ -154,41 +154,41 @@ func c03GenEvents(r *Rng, lines []pkglint.VerifLineInfo, plist bool, mode uint32
 					op.To = op.From // assert(from != to)
 				}
 			case 7:
-				op = pkglint.VerifFixOp{Kind: "above", From: c03GenLine(r, plist)}
+				op = pkglint.VerifC03Op{Kind: "above", From: c03GenLine(r, plist)}
 			case 8, 9:
-				op = pkglint.VerifFixOp{Kind: "below", From: c03GenLine(r, plist)}
+				op = pkglint.VerifC03Op{Kind: "below", From: c03GenLine(r, plist)}
 			case 10:
-				op = pkglint.VerifFixOp{Kind: "delete"}
+				op = pkglint.VerifC03Op{Kind: "delete"}
 			case 11:
 				// replacing a line terminator; not in PLISTs: the sorter relies on whole lines
 				// (no fix site passes a newline; Props C03_sort_* carry this guard)
 				if plist {
-					op = pkglint.VerifFixOp{Kind: "delete"}
+					op = pkglint.VerifC03Op{Kind: "delete"}
 				} else {
-					op = pkglint.VerifFixOp{Kind: "replaceafter", From: "\n", To: Pick(r, []string{"", " \\\n", "\n\n"})}
+					op = pkglint.VerifC03Op{Kind: "replaceafter", From: "\n", To: Pick(r, []string{"", " \\\n", "\n\n"})}
 				}
 			default:
 				// Custom() with a fixer that only describes (the shape of the chmod fix)
-				op = pkglint.VerifFixOp{Kind: "custom-chmod", RawIndex: r.Intn(2)}
+				op = pkglint.VerifC03Op{Kind: "custom-chmod", RawIndex: r.Intn(2)}
 			}
 			ev.Ops = append(ev.Ops, op)
 		}
 		evs = append(evs, ev)
 		if r.Chance(20) {
-			evs = append(evs, pkglint.VerifFixEvent{Kind: "save"})
+			evs = append(evs, pkglint.VerifC03Event{Kind: "save"})
 		}
 	}
 	if plist && r.Chance(70) {
 		// as in PlistChecker.Check: the sorter runs once, after all other checks
 		// (it permutes the PlistLine slice in place, a second sorter would see the sorted order)
-		evs = append(evs, pkglint.VerifFixEvent{Kind: "sort"})
+		evs = append(evs, pkglint.VerifC03Event{Kind: "sort"})
 	} else if r.Chance(75) {
-		evs = append(evs, pkglint.VerifFixEvent{Kind: "save"})
+		evs = append(evs, pkglint.VerifC03Event{Kind: "save"})
 	}
 	return evs
 }
 
-func c03EncodeCase(c c03Case, path string, lines []pkglint.VerifLineInfo) string {
+func c03EncodeCase(c c03Case, path string, lines []pkglint.VerifC03Line) string {
 	b2i := func(b bool) int {
 		if b {
 			return 1
@@ -253,7 +253,7 @@ type c03Obs struct {
 }
 
 // c03ObserveImpl runs the case on the real code; returns the observation and the loaded lines.
-func c03ObserveImpl(c c03Case) (c03Obs, pkglint.VerifFixResult, []logEntry) {
+func c03ObserveImpl(c c03Case) (c03Obs, pkglint.VerifC03Result, []logEntry) {
 	r := pkglint.VerifAutofixScript(c.Autofix, c.Show, c.Only, c.Base, c.Mode, c.Content, c.Events)
 	o := c03Obs{Panic: r.Panic != "", Disk: r.Disk}
 	var entries []logEntry
@@ -333,7 +333,7 @@ func c03CaseFromReplay(rep map[string]any) c03Case {
 	if evs, ok := rep["events"].([]any); ok {
 		for _, e := range evs {
 			em, _ := e.(map[string]any)
-			ev := pkglint.VerifFixEvent{}
+			ev := pkglint.VerifC03Event{}
 			ev.Kind, _ = em["kind"].(string)
 			if l, ok := em["line"].(float64); ok {
 				ev.Line = int(l)
@@ -343,7 +343,7 @@ func c03CaseFromReplay(rep map[string]any) c03Case {
 			if ops, ok := em["ops"].([]any); ok {
 				for _, o := range ops {
 					om, _ := o.(map[string]any)
-					op := pkglint.VerifFixOp{}
+					op := pkglint.VerifC03Op{}
 					op.Kind, _ = om["kind"].(string)
 					p, _ := om["prefix"].(string)
 					f, _ := om["from"].(string)
@@ -389,7 +389,7 @@ func c03EndsWithSave(c c03Case) bool {
 func c03CheckCases(ctx *Ctx, res *Result, cases []c03Case, count bool) {
 	type implRun struct {
 		obs     c03Obs
-		r       pkglint.VerifFixResult
+		r       pkglint.VerifC03Result
 		entries []logEntry
 	}
 	impl := make([]implRun, len(cases))
